@@ -209,6 +209,9 @@ func (t *sseClientTransport) start(ctx context.Context) error {
 	case <-ctx.Done():
 		t.close()
 		return fmt.Errorf("context cancelled while waiting for endpoint: %w", ctx.Err())
+	case <-sseCtx.Done():
+		// readSSE closes the transport when the stream ends; no endpoint will ever arrive.
+		return errors.New("SSE stream closed before the endpoint was received")
 	case <-time.After(60 * time.Second): // Add a timeout.
 		t.close()
 		return fmt.Errorf("timeout waiting for endpoint")
